@@ -270,6 +270,14 @@ bool splinetable<Alloc>::read_fits_core_impl(fitsfile* fits, const std::string& 
 						std::copy(value+1,value+valuelen-1,aux[i][1]);
 						aux[i][1][valuelen-2]='\0';
 					}
+					//a quote inside the string is stored as two quotes
+					char* out=&aux[i][1][0];
+					for(const char* in=out; *in; in++){
+						*out++=*in;
+						if(in[0]=='\'' && in[1]=='\'')
+							in++;
+					}
+					*out='\0';
 				}
 				else{
 					std::copy(value,value+valuelen,aux[i][1]);
